@@ -1013,9 +1013,29 @@ func streamRun(k *engine.Case, in *input, prog []step, mode int) bool {
 	rx := bytex.NewReaderX(cr)
 	k.Count("st_chunk_runs", 1)
 	k.Count("st_chunking_"+chunkName[mode], 1)
+	type kept struct {
+		i    int
+		held []byte
+		was  string
+	}
+	var keep []kept
+	defer func() {
+		// raw bytes handed out earlier must still read the same after the later reads
+		for _, h := range keep {
+			k.Count("st_retained_raw_checked", 1)
+			if string(h.held) != h.was {
+				k.Fail("stream-retained-bytes-changed/"+chunkName[mode], "input[%s] %s, chunking %s: the %d raw bytes returned by read #%d (%s) were %s when returned, but read %s after the following reads of the same ReaderX; program: %s",
+					in.mode, short(in.data), chunkName[mode], len(h.held), h.i, prog[h.i].op, short([]byte(h.was)), short(h.held), progString(prog))
+				return
+			}
+		}
+	}()
 	for i, s := range prog {
 		calls := cr.calls
 		res := execStream(rx, s.op)
+		if res.ok && len(res.held) > 0 {
+			keep = append(keep, kept{i, res.held, string(res.b)})
+		}
 		k.Count("st_reads_compared", 1)
 		if mode == 0 {
 			k.Count("st_r_"+opName[s.op.k], 1)
